@@ -28,8 +28,10 @@ func main() {
 	repo := flag.String("repo", "/repo", "repository root")
 	out := flag.String("out", "", "output directory for rewritten files")
 	jsonPath := flag.String("json", "", "overlay file to write")
-	mode := flag.String("mode", "sched", "sched: scheduler yield points; work: work counter (simulated time) in the stream decoders")
+	mode := flag.String("mode", "sched", "sched: scheduler yield points; work: work counter (simulated time)")
+	dirs := flag.String("dirs", "internal/filter", "work mode: comma-separated directories (relative to the repository root, searched recursively) that receive the work counter")
 	flag.Parse()
+	workDirs = strings.Split(*dirs, ",")
 	if *mode == "work" {
 		if *out == "" || *jsonPath == "" {
 			fmt.Fprintln(os.Stderr, "usage: instr -mode work -repo DIR -out DIR -json FILE")
@@ -439,7 +441,7 @@ func (p *simPool) Put(x any) {
 
 // workDirs are the packages (relative to the repository root, searched
 // recursively) that receive the work counter: the stream decoders.
-var workDirs = []string{"internal/filter"}
+var workDirs []string
 
 // workMode prepends a call of zzTick() to every function body and every loop
 // body of the decoder packages.  The tick count is the simulated time a decode
